@@ -130,6 +130,7 @@ struct Env
       h._solver.therep = rep; h._solver.scaled = isScaled != 0;
       h._solver.b.info = baseInfo; h._solver.b.num = baseNum; h._solver.b.size = n; h._solver.b.nr = n; h._solver.b.nc = nc;
       h.tol.eps = 1e-16;
+      g_ssdim = n;
       gp_s1 = s1; gp_s2 = s2; g_s1_used = 0; g_s2_used = 0; gp_xidx = xidx; gp_kout = kout; gp_local_x = 0;
       g_kcalls = 0; g_kkind = K_NONE; g_kx_ok = 0; g_setup_calls = 0; g_ensure_calls = 0; g_rhs_size = -1;
    }
